@@ -295,7 +295,7 @@ type c13hcase struct {
 var c13hvals = [][]byte{[]byte("tiny"), c13pattern("run", 3000), c13pattern("rnd", 300), c13pattern("text", 90)}
 
 var c13opNames = []string{"enable(8)", "enable(64)", "disable", "SET short", "SET run3000", "SET rnd300", "HSET text90", "MSET run3000+short", "SETEX run3000",
-	"GET", "HGET", "MGET", "move-group", "start-migration", "GETSET short", "remove-compression-section", "APPEND"}
+	"GET", "HGET", "MGET", "move-group", "start-migration", "GETSET short", "remove-compression-section", "APPEND", "connections-lost"}
 
 func c13history(cs c13hcase) (sig, detail string) {
 	body := func() {
@@ -366,6 +366,14 @@ func c13history(cs c13hcase) (sig, detail string) {
 			case 16:
 				// a command that is disabled while compression is enabled, on a key of its own
 				args = []string{"APPEND", k3, "x"}
+			case 17:
+				// every backend connection is lost: the next command goes over a connection (and a filter chain) that is
+				// created now
+				for _, n := range cl.Nodes {
+					n.CloseConns()
+				}
+				sched.WaitQuiescent()
+				continue
 			case 15:
 				// compression switched off by deleting the whole section from the service configuration
 				if err := s.p.OnSvcConfigUpdate(vfSvcConfig(0, nil, 0)); err != nil {
@@ -531,6 +539,21 @@ func c13histories(env sched.Env) *sched.Report {
 		}
 	}
 	rec(nil)
+	// selected deeper histories: enable, one write, two events out of {disable, remove the section, lose the
+	// connections, move the group, start a migration, enable with another threshold}, one read
+	if rep.Complete {
+		events := []int{2, 15, 17, 12, 13, 1}
+		for _, w := range []int{4, 6, 7, 8} {
+			for _, x := range events {
+				for _, y := range events {
+					old := depth
+					depth = 5
+					rec([]int{0, w, x, y}) // evaluates every extension by one read (or the banned command)
+					depth = old
+				}
+			}
+		}
+	}
 	rep.States = rep.Execs
 	rep.Distinct = rep.Execs
 	rep.CustomSamples = []interface{}{"enable(8), move-group, SET run3000, GET"}
